@@ -49,7 +49,8 @@ func TestC08Render(t *testing.T) {
 			t.Fatalf("bad line: %v", err)
 		}
 		n++
-		p := &acProg{ID: n, Family: "accept", Src: renderAccept(&d), Claim: []string{"front", "validate", "spv", "hlsl", "msl", "glsl"}, Spec: &d, Constr: d.constructs()}
+		src, pcs := renderAcceptPC(&d)
+		p := &acProg{ID: n, Family: "accept", Src: src, Claim: []string{"front", "validate", "spv", "hlsl", "msl", "glsl"}, Spec: &d, Constr: d.constructs(), Consts: pcs}
 		replayAccept(p, true, 0)
 		if trace != nil {
 			for _, ev := range p.Events {
